@@ -484,12 +484,17 @@ func rangeScan[K nodeKey, V any, L nodeLeaf[V]](
 	}
 
 	return func(yield func(K, V) bool) {
-		var q []nodeRef
+		type entry struct {
+			ref   nodeRef
+			depth int
+		}
 
-		depth := 0
-		q = append(q, root)
+		var q []entry
+
+		q = append(q, entry{ref: root})
 		for len(q) != 0 {
-			n := q[len(q)-1]
+			n := q[len(q)-1].ref
+			depth := q[len(q)-1].depth
 			q = q[:len(q)-1]
 
 			if n.tag == nodeKindLeaf {
@@ -511,6 +516,7 @@ func rangeScan[K nodeKey, V any, L nodeLeaf[V]](
 			}
 
 			node := n.node()
+			childDepth := depth + int(node.prefixLen) + 1
 
 			if node.prefixLen > 0 && depth < len(search) {
 				nodeKey := unsafe.Slice(&node.prefix[0], min(maxPrefixLen, node.prefixLen))
@@ -525,14 +531,14 @@ func rangeScan[K nodeKey, V any, L nodeLeaf[V]](
 				n4 := (*node4)(n.pointer)
 
 				for i := int(n4.childrenLen) - 1; i >= 0; i-- {
-					q = append(q, n4.children[i])
+					q = append(q, entry{n4.children[i], childDepth})
 				}
 
 			case nodeKind16:
 				n16 := (*node16)(n.pointer)
 
 				for i := int(n16.childrenLen) - 1; i >= 0; i-- {
-					q = append(q, n16.children[i])
+					q = append(q, entry{n16.children[i], childDepth})
 				}
 
 			case nodeKind48:
@@ -543,7 +549,7 @@ func rangeScan[K nodeKey, V any, L nodeLeaf[V]](
 					if idx == 0 {
 						continue
 					}
-					q = append(q, n48.children[idx-1])
+					q = append(q, entry{n48.children[idx-1], childDepth})
 				}
 
 			case nodeKind256:
@@ -553,14 +559,12 @@ func rangeScan[K nodeKey, V any, L nodeLeaf[V]](
 					if n256.children[i].pointer == nil {
 						continue
 					}
-					q = append(q, n256.children[i])
+					q = append(q, entry{n256.children[i], childDepth})
 				}
 
 			default:
 				panic("shouldn't be possible!")
 			}
-
-			depth += int(node.prefixLen) + 1
 		}
 	}
 }
